@@ -115,7 +115,21 @@ TplTab == <<
   [q |-> "\"", c |-> "{% vfjoin it %}/{% trans 'k' %}",  single |-> FALSE, inner |-> <<>>],
   \* 29.. : single-tag strings whose value is a container that is no list / no dict (SeqKinds / MapKinds)
   [q |-> "\"", c |-> "{{ tp }}",                         single |-> TRUE,  inner |-> <<"tp">>],
-  [q |-> "'",  c |-> "{{ mp }}",                         single |-> TRUE,  inner |-> <<"mp">>] >>
+  [q |-> "'",  c |-> "{{ mp }}",                         single |-> TRUE,  inner |-> <<"mp">>],
+  \* 31.. : strings that hold a STATEFUL stock tag (StatefulTpl): what such a tag renders depends on how often
+  \* THIS tag has been rendered before in the current render of the template ({% cycle %}: the next of its
+  \* values, starting with the first in every render; {% ifchanged %}: its content the first time and whenever
+  \* it changed since the last time).  The state belongs to the one tag that is written there.
+  [q |-> "\"", c |-> "{% cycle 'odd' 'even' %}",         single |-> FALSE, inner |-> <<>>],
+  [q |-> "\"", c |-> "{% cycle x s 'c' %}",              single |-> FALSE, inner |-> <<>>],
+  [q |-> "\"", c |-> "{% ifchanged %}{{ s }}{% endifchanged %}", single |-> FALSE, inner |-> <<>>],
+  [q |-> "\"", c |-> "<{% cycle 'a' 'b' 'c' %}>{% ifchanged x %}n{% else %}o{% endifchanged %}", single |-> FALSE, inner |-> <<>>] >>
+\* Entries whose value depends on the number of the evaluation within one render.  Leaf gives them the
+\* result [t |-> "nthrender", e |-> <<source>>]: in the j-th evaluation of the django-components tag that
+\* holds the string (j-th iteration of the loop the tag stands in; j = 1 without a loop) in one render, the
+\* text that the string - as a stock Django template at the place of the tag - renders the j-th time it is
+\* rendered in one render ({% for %}<the string>{% endfor %} in a stock template).
+StatefulTpl == 31..34
 
 \* Template-tag libraries that a {% load %} in front of the tag has made available where every
 \* generated tag stands (the harness registers "vf_c02_ext": filter vfwrap[:arg], simple tag vfjoin;
@@ -377,6 +391,7 @@ Invalid(args) == \E i \in 1..Len(args) : BadArg(args[i])
 \* equal key replaces the value, as in a Python dict display).
 Leaf(l) == IF l.t = "tpl"
            THEN (IF TplTab[l.id].single THEN [t |-> "leaf", e |-> TplTab[l.id].inner]
+                 ELSE IF l.id \in StatefulTpl THEN [t |-> "nthrender", e |-> <<TplTab[l.id].c>>]
                  ELSE [t |-> "render", e |-> <<TplTab[l.id].c>>])
            ELSE [t |-> "leaf", e |-> LeafText(l, Canon)]
 
@@ -450,6 +465,16 @@ DenoteIn(c, args) ==
 Denote(args) == DenoteIn(Ctx, args)
 \* The loop variable is never the operand of a spread, so an iteration denotes what its context does.
 \* (checked by MC_C02!LoopDenotes)
+
+\* Several tags in ONE template.  Every tag of a template is a tag of its own: its arguments denote what they
+\* denote when the tag stands alone, whatever else the template holds - in particular other tags written with
+\* the SAME argument text (two striped tables on one page: each starts with 'odd').  TogetherForms: the
+\* templates the harness builds from one argument list - n copies of the tag one after the other, each
+\* inside its own {% for it in its %} (loop) or bare.  DenoteTogether: what copy i hands over in evaluation j
+\* of a render with context c - exactly what the single tag does (for a "nthrender" value: the j-th rendering
+\* of ITS string, the count starts again with every copy).
+TogetherForms == << [n |-> 2, loop |-> TRUE], [n |-> 3, loop |-> FALSE], [n |-> 3, loop |-> TRUE], [n |-> 2, loop |-> FALSE] >>
+DenoteTogether(c, args, form) == [i \in 1..form.n |-> DenoteIn(c, args)]
 
 (* ------------------------------ admissible outcomes ------------------- *)
 \* Whitespace after * / ** is documented for a *variable* operand (`[ * spread ]`); before a
